@@ -43,10 +43,9 @@
 (* Deliberately not modelled (named deviations):                                            *)
 (*   Dev_SameIdOtherContent setLastConfiguration ignores a configuration whose id equals    *)
 (*       the current one even if the content differs; here content is a function of the id. *)
-(*   Dev_DuplicatePeer      a peer that the stored configuration lists WITHOUT the          *)
-(*       coordinator type but the application configuration lists as coordinator is         *)
-(*       appended a second time by the merge (two entries, one peer id); configurations     *)
-(*       explored here keep a coordinator a coordinator.                                     *)
+(*   Dev_DuplicateRingMember  a peer listed in TWO tree-typed (or two fileV2-typed) entries  *)
+(*       is added to the hash ring twice (double weight); explored configurations split the  *)
+(*       roles of a peer between its entries, no role is listed twice.                       *)
 EXTENDS Integers, Sequences, FiniteSets, TLC
 
 CONSTANTS Nodes,      \* peer ids that may appear in a configuration
@@ -58,24 +57,33 @@ CONSTANTS Nodes,      \* peer ids that may appear in a configuration
           NoConf,     \* "no configuration" marker
           Merged,     \* the private id "-1" of a stored configuration with merged coordinators
           Static,     \* TRUE: every participant starts booted on the first configuration
+          Lookups,    \* TRUE: lookups may also be explored as two steps (LookupBegin / LookupEnd) around which
+                      \* other participants act; FALSE: only the atomic Query
           PubChoices  \* the sets of published configurations to explore: functions ConfIds -> configuration,
                       \* a configuration being a function from a subset of Nodes to SUBSET Types
 
 Participants == Nodes \cup {Client}
 Types        == {"tree", "fileV2", "coord"}   \* a node with none of them stands for consensus/file/... nodes
-\* a configuration: function from a subset of Nodes to [types : SUBSET Types, addrs : set of addresses]
+\* a configuration: function from a subset of Nodes (peer ids) to [ents, addrs].  A peer id may be listed in
+\* SEVERAL entries of the node list with the roles split between them (the repository's own fixture lists a
+\* coordinator and a naming node that way): ents is the sequence of the type sets of its entries, in list
+\* order.  The rings are built from every tree-typed (fileV2-typed) entry: what counts is the union.
+TypesOf(r) == UNION {r.ents[i] : i \in DOMAIN r.ents}
 
-Sync(c)   == {n \in DOMAIN c : "tree"   \in c[n].types}
-FileV2(c) == {n \in DOMAIN c : "fileV2" \in c[n].types}
-Coords(c) == {n \in DOMAIN c : "coord"  \in c[n].types}
+Sync(c)   == {n \in DOMAIN c : "tree"   \in TypesOf(c[n])}
+FileV2(c) == {n \in DOMAIN c : "fileV2" \in TypesOf(c[n])}
+Coords(c) == {n \in DOMAIN c : "coord"  \in TypesOf(c[n])}
 
 \* mergeCoordinatorAddrs(appConfig, lastStored): the stored configuration with the application's coordinators merged in
 Merge(app, st) ==
-    LET add == Coords(app) \ Coords(st)             \* appended as a whole (Dev_DuplicatePeer: not already listed)
+    LET add == Coords(app) \ Coords(st)             \* the application's coordinator entry is appended as a whole
+        CoordEnt(r) == r.ents[CHOOSE i \in DOMAIN r.ents : "coord" \in r.ents[i]]
     IN [n \in DOMAIN st \cup add |->
-          IF n \in Coords(app) \cap Coords(st) THEN [types |-> st[n].types, addrs |-> st[n].addrs \cup app[n].addrs]
+          IF n \in Coords(app) \cap Coords(st) THEN [ents |-> st[n].ents, addrs |-> st[n].addrs \cup app[n].addrs]
+          ELSE IF n \in add /\ n \in DOMAIN st      \* listed, but not as coordinator: one more entry for the same peer
+               THEN [ents |-> Append(st[n].ents, CoordEnt(app[n])), addrs |-> st[n].addrs \cup app[n].addrs]
           ELSE IF n \in DOMAIN st THEN st[n]
-          ELSE app[n]]
+          ELSE [ents |-> <<CoordEnt(app[n])>>, addrs |-> app[n].addrs]]
 
 \* nodeconf.ReplKey: the suffix after the LAST dot; the whole id if there is no dot
 ReplKey(id) == id[Len(id)]
@@ -90,8 +98,9 @@ VARIABLES pub,     \* [ConfIds -> configuration]: the published configurations (
           priv,    \* [Participants -> configuration or NoConf]: content of the participant's private "-1" configuration
           part,    \* materialised part of the partition function: [Keys -|-> Parts]
           ring,    \* materialised part of the ring function: [<<rf, S, pt>> -|-> SUBSET Nodes]
+          look,    \* [Participants -> NoConf or [space, conf]]: a lookup in flight (it holds the service's read lock)
           obs      \* the most recent answer (a record) or NoConf; forgotten at every life-cycle step
-vars == <<pub, last, stored, priv, part, ring, obs>>
+vars == <<pub, last, stored, priv, part, ring, look, obs>>
 
 \* content of configuration cid as participant p holds / stores it
 ConfOf(p, cid) == IF cid = Merged THEN priv[p] ELSE pub[cid]
@@ -103,6 +112,7 @@ Init ==
     /\ last = [p \in Participants |-> IF Static THEN FirstConf ELSE NoConf]
     /\ stored = [p \in Participants |-> NoConf]
     /\ priv = [p \in Participants |-> NoConf]
+    /\ look = [p \in Participants |-> NoConf]
     /\ part = <<>> /\ ring = <<>> /\ obs = NoConf
 
 Extend(f, k, v) == IF k \in DOMAIN f THEN f ELSE f @@ (k :> v)
@@ -111,7 +121,7 @@ Extend(f, k, v) == IF k \in DOMAIN f THEN f ELSE f @@ (k :> v)
 \* Init: the application configuration if nothing is stored; else the stored configuration, after the
 \* coordinator merge - and under the private id Merged if the merge changed it (saved and set)
 BootWith(p, appConf) ==
-    /\ last[p] = NoConf
+    /\ last[p] = NoConf /\ look[p] = NoConf
     /\ IF stored[p] = NoConf
        THEN /\ last' = [last EXCEPT ![p] = appConf]
             /\ UNCHANGED <<stored, priv>>
@@ -124,24 +134,25 @@ BootWith(p, appConf) ==
                ELSE /\ last' = [last EXCEPT ![p] = stored[p]]
                     /\ UNCHANGED <<stored, priv>>
     /\ obs' = NoConf
-    /\ UNCHANGED <<pub, part, ring>>
+    /\ UNCHANGED <<pub, part, ring, look>>
 
 \* updateConfiguration: the source returned configuration c: saved, then set (a fresh ring is built;
-\* nothing of the previous configuration survives)
+\* nothing of the previous configuration survives).  setLastConfiguration takes the write lock: it waits for
+\* the lookups in flight, so a lookup is atomic with respect to configuration changes
 Boot(p) == BootWith(p, FirstConf)
 
 Update(p, c) ==
-    /\ last[p] # NoConf /\ c # last[p]
+    /\ last[p] # NoConf /\ c # last[p] /\ look[p] = NoConf
     /\ stored' = [stored EXCEPT ![p] = c]
     /\ last' = [last EXCEPT ![p] = c]
     /\ obs' = NoConf
-    /\ UNCHANGED <<pub, priv, part, ring>>
+    /\ UNCHANGED <<pub, priv, part, ring, look>>
 
 Restart(p) ==
-    /\ last[p] # NoConf /\ ~Static
+    /\ last[p] # NoConf /\ ~Static /\ look[p] = NoConf
     /\ last' = [last EXCEPT ![p] = NoConf]
     /\ obs' = NoConf
-    /\ UNCHANGED <<pub, stored, priv, part, ring>>
+    /\ UNCHANGED <<pub, stored, priv, part, ring, look>>
 
 (* ---- answering a query ---- *)
 RingKey(rf, S, pt) == <<rf, S, pt>>
@@ -160,20 +171,34 @@ Answer(p, s, cid, pt, m, m2, ids, resp) ==
 
 \* what the code computes: partition and members from the (shared, deterministic) functions,
 \* NodeIds filters the own account, IsResponsible tests membership, FileV2NodeIds keeps self
-Query(p, s) ==
+QueryFrom(p, s, cid) ==
     /\ last[p] # NoConf
     /\ LET k == ReplKey(s)
-           c == ConfOf(p, last[p])
+           c == ConfOf(p, cid)
        IN \E pt \in Parts, m \in Choices(RF, Sync(c)), m2 \in Choices(RF2, FileV2(c)) :
             /\ k \in DOMAIN part => pt = part[k]
             /\ RingKey(RF, Sync(c), pt) \in DOMAIN ring => m = ring[RingKey(RF, Sync(c), pt)]
             /\ RingKey(RF2, FileV2(c), pt) \in DOMAIN ring => m2 = ring[RingKey(RF2, FileV2(c), pt)]
             /\ (RF = RF2 /\ Sync(c) = FileV2(c)) => m = m2
-            /\ Answer(p, s, last[p], pt, m, m2, m \ {p}, p \in m)
+            /\ Answer(p, s, cid, pt, m, m2, m \ {p}, p \in m)
+
+\* a lookup under the read lock, in one step ...
+Query(p, s) == look[p] = NoConf /\ QueryFrom(p, s, last[p]) /\ UNCHANGED look
+
+\* ... or in two, with steps of other participants (and refused steps of this one) in between
+LookupBegin(p, s) ==
+    /\ Lookups /\ last[p] # NoConf /\ look[p] = NoConf
+    /\ look' = [look EXCEPT ![p] = [space |-> s, conf |-> last[p]]]
+    /\ UNCHANGED <<pub, last, stored, priv, part, ring, obs>>
+LookupEnd(p) ==
+    /\ look[p] # NoConf
+    /\ QueryFrom(p, look[p].space, look[p].conf)
+    /\ look' = [look EXCEPT ![p] = NoConf]
 
 Next == \/ \E p \in Participants : Boot(p) \/ Restart(p)
         \/ \E p \in Participants, c \in ConfIds : Update(p, c)
-        \/ \E p \in Participants, s \in SpaceIds : Query(p, s)
+        \/ \E p \in Participants, s \in SpaceIds : Query(p, s) \/ LookupBegin(p, s)
+        \/ \E p \in Participants : LookupEnd(p)
 
 Spec == Init /\ [][Next]_vars
 
@@ -194,6 +219,8 @@ OConf  == ConfOf(obs.p, obs.conf)
 
 \* the answer was computed from the configuration the participant currently holds
 AnswerFromCurrentConf == HasObs => obs.conf = last[obs.p]
+\* ... also when the lookup overlapped other steps: it was computed from the configuration it read, which is still held
+LookupAtomic == \A p \in Participants : look[p] # NoConf => look[p].conf = last[p]
 
 \* every answer is the value of the one shared function of (sync-node SET, suffix): since part/ring keep
 \* the first answer given by anybody, this is agreement between all participants, all list orders and all
@@ -223,7 +250,7 @@ Consequences ==
               /\ Cardinality(obs.nodeIds) = Cardinality(obs.members) - (IF obs.resp THEN 1 ELSE 0)
               /\ (Cardinality(Sync(OConf)) <= RF) => obs.members = Sync(OConf)
 
-Inv == TypeOK /\ RingContract /\ AnswerFromCurrentConf /\ Agreement /\ ResponsibleSet /\ SelfExclusion /\ Consequences
+Inv == TypeOK /\ RingContract /\ AnswerFromCurrentConf /\ LookupAtomic /\ Agreement /\ ResponsibleSet /\ SelfExclusion /\ Consequences
 
 \* pairwise form of the property as an action property: two consecutive answers (any two participants,
 \* any two ids) for the same sync-node set and the same suffix name the same nodes
